@@ -330,6 +330,22 @@ pub fn parse_line(line: &str) -> LineInfo {
             }
         }
 
+        if semi_ok && (c == ';' || c == '&') {
+            // `echo 'a'; echo b`, `"a"&& b`: a list operator right after the
+            // closing quote ends the quoted word, it is not part of it.
+            if sep.is_empty() && !sep_made.is_empty() {
+                result.push((sep_made.to_string(), token));
+                sep_made = String::new();
+            } else {
+                result.push((sep.to_string(), token));
+            }
+            sep = String::new();
+            sep_second = String::new();
+            token = c.to_string();
+            semi_ok = false;
+            continue;
+        }
+
         if c == ' ' {
             if semi_ok {
                 if sep.is_empty() && !sep_made.is_empty() {
